@@ -16,7 +16,8 @@ def run(report, tier):
                       "daughter bare when it has no table or is in S, otherwise the chain built for it with the same S (per position, also for "
                       "repeated daughters); mothers without table raise DecayNotFound",
                 bounds=f"{H.N_CHAINS} acyclic table sets over 5 particles ({H.N_CODES} table shapes each: none, empty block, 1..5 lines, repeated "
-                       "daughters, depth up to 5) x every mother x all 64 stable sets over the particles involved (given as list, tuple or set) "
+                       "daughters, depth up to 5) x every mother x all 64 stable sets over the particles involved (given as list, tuple or set, or as one list / set object the "
+                       "caller keeps and edits in place between consecutive calls) "
                        "x session history (fresh | another parser used before | the same parser parsed before without conjugates, queried, and "
                        "parsed again | the reverse)",
                 functions=FUNCS, timeout=3000 if tier == "thorough" else 600, sample={"codes": [3, 4, 2, 1, 0], "stable": ["K_1(1270)+"]})
